@@ -42,6 +42,11 @@ def cases(tier, seed):
             # connect failures delivered synchronously (the endpoint's Deferred has fired before it is returned)
             out.append(dict(kind="enum", seed=seed * 31 + b, refuse=nref + 1, sync=True, cut=["time", 0.0]))
             out.append(dict(kind="enum", seed=seed * 31 + b, refuse=nref + 1, sync=True, cut=None, close_in_backoff=True))
+            # a configured back-off far above anything afkak might think reasonable: f(n) is the caller's business
+            out.append(dict(kind="enum", seed=seed * 31 + b, refuse=nref + 1, sync=bool(nref % 2), cut=["time", 0.0],
+                            policy=[(16.0, 2.5), (31.0, 0.0), (7.0, 6.0), (61.0, 1.0)][nref]))
+    npat = {"quick": 160, "thorough": 4000}[tier]
+    out += [dict(kind="pattern", seed=seed * 1000037 + i) for i in range(npat)]
     return out
 
 
@@ -66,6 +71,8 @@ def enum_scenario(spec):
                        for i in sc["ids"] + sc["extra_ids"] for n in range(3)]
     sc["injections"] = []
     sc["actions"] = [a for a in sc["actions"] if a[1] in ("req", "cancel")]
+    if spec.get("policy"):
+        sc["retry_base"], sc["retry_step"] = spec["policy"]
     return sc
 
 
@@ -247,6 +254,11 @@ def run(spec):
     if spec["kind"] == "enum":
         sc = enum_scenario(spec)
         res.hit("enumerated_cut_points")
+        if spec.get("policy"):
+            res.hit("long_backoff_policies")
+    elif spec["kind"] == "pattern":
+        sc = bc.pattern_scenario(spec["seed"])
+        res.hit("pattern_" + sc["pattern"])
     else:
         sc = bc.gen_scenario(spec["seed"], spec.get("variant"))
     tr = bc.run_scenario(sc)
